@@ -185,6 +185,28 @@ def _sum_facts(model, table):
             continue
         if ps.retval == ("const", None):
             continue
+        # "all factors that are not -1": an even number of signs cancels, the
+        # caller still writes one minus
+        def sign_filter(v):
+            return v[0] == "seq" and v[3] == KIDS and v[4] and any(
+                c[0] == "call" and c[1] == "is_zero"
+                for ct in v[4] for c in _walk(getattr(ct, "val", ())))
+        filt = [v for v in _walk(ps.retval) if sign_filter(v)]
+        if filt:
+            counted = any(isinstance(v0, tuple) and any(
+                t[0] == "binop" and t[1] == "Sub" for t in _walk(v0))
+                for _, _, v0 in ps.conds)
+            if counted:
+                raise AnalysisError("simplifying map_sum: get_neg_product counts "
+                                    "the signs it removes: not a form this "
+                                    "check reads")
+            from .. import ModelViolation
+            raise ModelViolation(
+                "P/simplifying/map_sum/one-sign-removed",
+                mem.owner.module.loc(inner[0]),
+                "get_neg_product returns the factors that are not -1, however "
+                "many signs that removes, and the caller writes one minus for "
+                "the term: a + (-1)*(-1)*b is printed as 'a - b'")
         is_product = minus_first = False
         # a second, independent case: a negative plain number n is written as
         # "- <-n>"  (x + -5  ->  x - 5)
@@ -319,6 +341,26 @@ def _grammar(ctx, model, table):
                "Quotient node means true division (0.5)",
                {"emitted": s_})
     ctx.floor("integer-constant quotient probes", n_div, 7)
+    # ... and the other way round: a FloorDiv of two integer constants is meant
+    # to be C's integer division, so both operands of the emitted '/' keep
+    # integer type (7 // 2 is 3, 7.0 / 2 is 3.5)
+    for name, t in (
+            ("7//2", ("FloorDiv", ("Const", 7), ("Const", 2))),
+            ("v+7//2", ("Sum", (V[0], ("FloorDiv", ("Const", 7), ("Const", 2))))),
+            ("(7//2)*v", ("Product", (("FloorDiv", ("Const", 7), ("Const", 2)),
+                                      V[0])))):
+        try:
+            s_ = printer.print(t, 0)
+            back = cparser.parse(s_)
+        except (Unsupported, ModelParseError) as e:
+            raise AnalysisError(f"C printer/parser model: {show(t)}: {e}")
+        divs = list(divisions(back))
+        ok = len(divs) == 1 and int_typed(divs[0][1]) and int_typed(divs[0][2])
+        ctx.ob(f"T/c-types/floor-division-of-integer-constants:{name}", ok, loc,
+               f"'{s_}' is an integer division" if ok else
+               f"{show(t)} is emitted as '{s_}': that '/' is no longer a "
+               "division of two integer-typed operands, so C computes 3.5 where "
+               "the FloorDiv node means 3", {"emitted": s_})
 
     n = 0
     for P, ar in KINDS.items():
